@@ -2,7 +2,7 @@
    All clauses are stated over the arena model: same address after reclaiming, in-place growth of
    the newest block (upwards), opt-outs, non-last blocks untouched, invariant kept. *)
 From Coq Require Import ZArith List Bool.
-From BS Require Import Word BumpSpec ChunkSpec Arena ArenaInv ArenaStats ArenaMisc ArenaMem ArenaMem2 LibRefine.
+From BS Require Import Word BumpSpec ChunkSpec Arena ArenaInv ArenaStats ArenaMisc ArenaMem ArenaMem2 ArenaExt ArenaInv2 ArenaAlloc LibRefine.
 From BS.gen Require LibArith.
 Import ListNotations.
 Open Scope Z_scope.
@@ -63,6 +63,23 @@ Theorem C13_realign_is_the_code :
   LibArith.align_pos upb m pos = Ok (align_posZ upb m pos).
 Proof. exact align_pos_refines. Qed.
 
+(* "the allocated byte count decreases only through reclaiming the most recent allocation, leaving a
+   scope, or a reset": every other operation — allocate, grow in place or by moving, fill,
+   checkpoint, statistics, entering an aligned region, prepare / write / commit of a prepared
+   slice, claim and unclaim — leaves it at least as large, from every state that satisfies the
+   invariant, whatever the base allocator answers *)
+Theorem C13_growing_step_never_decreases_allocated :
+  forall c s0 o r i,
+  cfg_ok c -> inv c s0 -> cur s0 = Cur i -> growing o -> op_ok2 c s0 o -> op_resp_ok2 c s0 o r ->
+  alloc_bytes c s0 <= alloc_bytes c (fst (step c s0 o r)).
+Proof. exact growing_step_never_decreases_allocated. Qed.
+
+Theorem C13_raw_alloc_never_decreases :
+  forall c s i size align r s' res,
+  cfg_ok c -> ginv c s -> valid_layout size align -> resp_ok c s size align r -> cur s = Cur i ->
+  raw_alloc c s size align r = (s', res) -> alloc_bytes c s <= alloc_bytes c s'.
+Proof. exact raw_alloc_never_decreases. Qed.
+
 Print Assumptions C13_dealloc_then_alloc_same_address_up.
 Print Assumptions C13_grow_newest_in_place_up.
 Print Assumptions C13_dealloc_optout_keeps_stats.
@@ -71,3 +88,5 @@ Print Assumptions C13_without_shrink_fit_keeps_state.
 Print Assumptions C13_no_shrink_setting_fit_keeps_state.
 Print Assumptions C13_dealloc_keeps_invariant.
 Print Assumptions C13_realign_is_the_code.
+Print Assumptions C13_growing_step_never_decreases_allocated.
+Print Assumptions C13_raw_alloc_never_decreases.
